@@ -604,7 +604,7 @@ def normalise(case):
   case['note'] = False
   for link in case['links']:
     link['scope'] = ''
-    if link['kind'] == 'singleton':     # a singleton reference is necessarily a scoped one
+    if link['kind'] in ('singleton', 'macro'):     # both are scoped references underneath
       link['kind'] = 'ref'
   return case
 
